@@ -128,11 +128,18 @@ theorem replicate_imagePos (inp : FindInput) (a b c t g : Nat) (ht : t < a * b *
 theorem distSq_shift_both (Q Y c : Vec3) : distSq (Vec3.add Q ⟨-c.x, -c.y, -c.z⟩) Y = distSq Q (Vec3.add Y c) := by
   unfold distSq Vec3.normSq Vec3.dot Vec3.sub Vec3.add; simp only; ring
 
+/-- the unit-cell image vectors of a folded supercell occurrence: supercell image `n' k` times the replication factors
+    plus the image number of the supercell atom, relative to the first atom -/
+def foldImg (a b c N : Nat) (g' : Nat → Nat) (n' : Nat → Int × Int × Int) (k : Nat) : Int × Int × Int :=
+  ((n' k).1 * a + (decodeImg b c (g' k / N)).1 - (decodeImg b c (g' 0 / N)).1,
+   (n' k).2.1 * b + (decodeImg b c (g' k / N)).2.1 - (decodeImg b c (g' 0 / N)).2.1,
+   (n' k).2.2 * c + (decodeImg b c (g' k / N)).2.2 - (decodeImg b c (g' 0 / N)).2.2)
+
 /-- **fold.** Every occurrence of the supercell is an occurrence of the unit cell after folding the atom indices
     with `% N` (same rotation; the image vectors are recomputed from the supercell images). -/
-theorem rigid_replicate_fold (inp : FindInput) (a b c : Nat) (hlen : inp.elems.length = inp.pos.length) (epsSq : Rat)
-    (g' : Nat → Nat) (n' : Nat → Int × Int × Int) (h : RigidOccurrence (inp.replicate a b c) epsSq g' n') :
-    ∃ n, RigidOccurrence inp epsSq (fun k => g' k % inp.pos.length) n := by
+theorem rigid_replicate_fold_explicit (inp : FindInput) (a b c : Nat) (hlen : inp.elems.length = inp.pos.length)
+    (epsSq : Rat) (g' : Nat → Nat) (n' : Nat → Int × Int × Int) (h : RigidOccurrence (inp.replicate a b c) epsSq g' n') :
+    RigidOccurrence inp epsSq (fun k => g' k % inp.pos.length) (foldImg a b c inp.pos.length g' n') := by
   let N := inp.pos.length
   have hpp : (inp.replicate a b c).ppos = inp.ppos := rfl
   have hidx : ∀ k, k < inp.ppos.length → g' k < a * b * c * N := by
@@ -156,7 +163,7 @@ theorem rigid_replicate_fold (inp : FindInput) (a b c : Nat) (hlen : inp.elems.l
   let n : Nat → Int × Int × Int := fun k =>
     ((n' k).1 * a + (r k).1 - (r 0).1, (n' k).2.1 * b + (r k).2.1 - (r 0).2.1, (n' k).2.2 * c + (r k).2.2 - (r 0).2.2)
   rcases h.fit with ⟨R, t, hR, hfit⟩
-  refine ⟨n, ?_⟩
+  show RigidOccurrence inp epsSq (fun k => g' k % inp.pos.length) n
   refine
     { idx_lt := fun k hk => (hdec k hk).2.2.1
       home := by
@@ -189,6 +196,11 @@ theorem rigid_replicate_fold (inp : FindInput) (a b c : Nat) (hlen : inp.elems.l
   rw [← add_assoc3, distSq_shift_both]
   exact hf
 
+theorem rigid_replicate_fold (inp : FindInput) (a b c : Nat) (hlen : inp.elems.length = inp.pos.length) (epsSq : Rat)
+    (g' : Nat → Nat) (n' : Nat → Int × Int × Int) (h : RigidOccurrence (inp.replicate a b c) epsSq g' n') :
+    ∃ n, RigidOccurrence inp epsSq (fun k => g' k % inp.pos.length) n :=
+  ⟨_, rigid_replicate_fold_explicit inp a b c hlen epsSq g' n' h⟩
+
 /-! ### lifting a unit-cell occurrence into the supercell, once per image -/
 
 /-- integer division of an image multiplier by a replication factor: quotient (supercell image) and remainder
@@ -208,15 +220,27 @@ theorem int_split (v : Int) (a : Nat) (ha : 0 < a) :
   · have : (((v % (a : Int)).toNat : Nat) : Int) < (a : Int) := by rw [ecast]; exact hlt
     exact_mod_cast this
 
+/-- image number inside the supercell of the lifted atom `k` (first atom placed in image `m`) -/
+def liftRem (a b c : Nat) (n : Nat → Int × Int × Int) (m : Nat × Nat × Nat) (k : Nat) : Nat × Nat × Nat :=
+  ((((n k).1 + m.1) % (a : Int)).toNat, (((n k).2.1 + m.2.1) % (b : Int)).toNat, (((n k).2.2 + m.2.2) % (c : Int)).toNat)
+
+/-- supercell image of the lifted atom `k` -/
+def liftImg (a b c : Nat) (n : Nat → Int × Int × Int) (m : Nat × Nat × Nat) (k : Nat) : Int × Int × Int :=
+  (((n k).1 + m.1) / (a : Int), ((n k).2.1 + m.2.1) / (b : Int), ((n k).2.2 + m.2.2) / (c : Int))
+
+/-- supercell atom index of the lifted atom `k` -/
+def liftIdx (inp : FindInput) (a b c : Nat) (g : Nat → Nat) (n : Nat → Int × Int × Int) (m : Nat × Nat × Nat) (k : Nat) : Nat :=
+  encodeImg b c (liftRem a b c n m k) * inp.pos.length + g k
+
 /-- **lift.** Every occurrence `(g, n)` of the unit cell occurs in the supercell with its first atom in ANY chosen
     image `m` of the box (`m.1 < a`, `m.2.1 < b`, `m.2.2 < c`): the supercell atoms are the images `n k + m` reduced
     modulo the supercell; they fold back onto `g` (`% N`) and the first one is atom `g 0` of image `m`. -/
-theorem rigid_replicate_lift (inp : FindInput) (a b c : Nat) (hlen : inp.elems.length = inp.pos.length) (epsSq : Rat)
-    (g : Nat → Nat) (n : Nat → Int × Int × Int) (h : RigidOccurrence inp epsSq g n)
+theorem rigid_replicate_lift_explicit (inp : FindInput) (a b c : Nat) (hlen : inp.elems.length = inp.pos.length)
+    (epsSq : Rat) (g : Nat → Nat) (n : Nat → Int × Int × Int) (h : RigidOccurrence inp epsSq g n)
     (m : Nat × Nat × Nat) (h1 : m.1 < a) (h2 : m.2.1 < b) (h3 : m.2.2 < c) :
-    ∃ g' n', RigidOccurrence (inp.replicate a b c) epsSq g' n' ∧
-      (∀ k, k < inp.ppos.length → g' k % inp.pos.length = g k) ∧
-      g' 0 = encodeImg b c m * inp.pos.length + g 0 := by
+    RigidOccurrence (inp.replicate a b c) epsSq (liftIdx inp a b c g n m) (liftImg a b c n m) ∧
+      (∀ k, k < inp.ppos.length → liftIdx inp a b c g n m k % inp.pos.length = g k) ∧
+      liftIdx inp a b c g n m 0 = encodeImg b c m * inp.pos.length + g 0 := by
   let N := inp.pos.length
   have ha : 0 < a := by omega
   have hb : 0 < b := by omega
@@ -244,7 +268,9 @@ theorem rigid_replicate_lift (inp : FindInput) (a b c : Nat) (hlen : inp.elems.l
     rw [Int.emod_eq_of_lt (by omega) (by omega), Int.emod_eq_of_lt (by omega) (by omega),
       Int.emod_eq_of_lt (by omega) (by omega)]
     simp
-  refine ⟨g', q, ?_, ?_, ?_⟩
+  show RigidOccurrence (inp.replicate a b c) epsSq g' q ∧ (∀ k, k < inp.ppos.length → g' k % inp.pos.length = g k) ∧
+      g' 0 = encodeImg b c m * inp.pos.length + g 0
+  refine ⟨?_, ?_, ?_⟩
   · refine
       { idx_lt := fun k hk => by
           rw [hpp] at hk
@@ -289,5 +315,27 @@ theorem rigid_replicate_lift (inp : FindInput) (a b c : Nat) (hlen : inp.elems.l
     rw [Nat.mul_comm, Nat.mul_add_mod]; exact Nat.mod_eq_of_lt (h.idx_lt k hk)
   · show encodeImg b c (r 0) * N + g 0 = _
     rw [hr0]
+
+theorem rigid_replicate_lift (inp : FindInput) (a b c : Nat) (hlen : inp.elems.length = inp.pos.length) (epsSq : Rat)
+    (g : Nat → Nat) (n : Nat → Int × Int × Int) (h : RigidOccurrence inp epsSq g n)
+    (m : Nat × Nat × Nat) (h1 : m.1 < a) (h2 : m.2.1 < b) (h3 : m.2.2 < c) :
+    ∃ g' n', RigidOccurrence (inp.replicate a b c) epsSq g' n' ∧
+      (∀ k, k < inp.ppos.length → g' k % inp.pos.length = g k) ∧
+      g' 0 = encodeImg b c m * inp.pos.length + g 0 :=
+  ⟨_, _, rigid_replicate_lift_explicit inp a b c hlen epsSq g n h m h1 h2 h3⟩
+
+/-- the image numbering is injective -/
+theorem encode_decode (b c t : Nat) : encodeImg b c (decodeImg b c t) = t := by
+  unfold encodeImg decodeImg
+  simp only
+  have e1 : t / (b * c) = t / c / b := by rw [Nat.mul_comm b c, Nat.div_div_eq_div_mul]
+  rw [e1]
+  have h1 := Nat.div_add_mod (t / c) b
+  have h2 := Nat.div_add_mod t c
+  have h3 : t / c / b * b + t / c % b = t / c := by rw [Nat.mul_comm]; exact h1
+  rw [h3, Nat.mul_comm]; exact h2
+
+theorem decode_inj (b c t t' : Nat) (h : decodeImg b c t = decodeImg b c t') : t = t' := by
+  rw [← encode_decode b c t, ← encode_decode b c t', h]
 
 end Mofun
